@@ -141,6 +141,7 @@ func (n *Net) fault(op string, handle int) string {
 
 type Sink struct {
 	ID     int
+	Creator int // managed thread that constructed the sink
 	n      *Net
 	Addr   netip.Addr
 	Closes int
@@ -153,7 +154,7 @@ func (n *Net) newSink(addr netip.Addr) (packets.Sink, error) {
 	if c := n.fault("NewSink", len(n.Sinks)); c != "" {
 		return nil, fmt.Errorf("raw socket: %w", ErrInjected)
 	}
-	s := &Sink{ID: len(n.Sinks), n: n, Addr: addr}
+	s := &Sink{ID: len(n.Sinks), n: n, Addr: addr, Creator: vsched.CurrentThread()}
 	n.Sinks = append(n.Sinks, s)
 	return s, nil
 }
@@ -471,6 +472,8 @@ func (l *Listener) poll(n *Net) {
 		if !l.Spec.Enabled {
 			continue
 		}
+		connIdx := uint32(len(l.Accepted) - 1)
+		isn, ackNum := l.Spec.ISN+connIdx*0x01000000, l.Spec.AckNum+connIdx*0x00100000 // every connection has its own sequence space
 		mk := func(srv, cli netip.AddrPort) []byte {
 			var opts []byte
 			opts = append(opts, refcodec.OptMSS(1460)...)
@@ -485,7 +488,7 @@ func (l *Listener) poll(n *Net) {
 				}
 				opts = append(opts, ts...)
 			}
-			t := refcodec.TCP(srv.Addr(), cli.Addr(), srv.Port(), cli.Port(), l.Spec.ISN, l.Spec.AckNum, refcodec.SYN|refcodec.ACK, 65535, opts, nil)
+			t := refcodec.TCP(srv.Addr(), cli.Addr(), srv.Port(), cli.Port(), isn, ackNum, refcodec.SYN|refcodec.ACK, 65535, opts, nil)
 			return refcodec.Wrap(srv.Addr(), cli.Addr(), refcodec.ProtoTCP, 64, 0, t)
 		}
 		if l.Spec.WrongFirst {
